@@ -469,6 +469,34 @@ func ruleOnlyParserReadsConn(c *Ctx, rid string) {
 					return
 				}
 			}
+			// a transparent Read wrapper (func (c *Conn) Read(b []byte) (int, error) forwarding b to
+			// the embedded connection and returning its n and err unchanged, e.g. to count bytes):
+			// whoever calls the wrapper is the reader — the parser, when it is given the *Conn
+			if call, isCall := ins.(*ssa.Call); isCall && fn.Name() == "Read" && fn.Signature.Recv() != nil && len(fn.Params) == 2 && isByteSlice(fn.Params[1].Type()) {
+				args := cc.Args
+				bufArg := ssa.Value(nil)
+				if cc.IsInvoke() && len(args) == 1 {
+					bufArg = args[0]
+				} else if !cc.IsInvoke() && len(args) == 2 {
+					bufArg = args[1]
+				}
+				through := bufArg != nil && strip(bufArg) == ssa.Value(fn.Params[1])
+				for _, r := range returnsOf(fn) {
+					if len(r.Results) != 2 {
+						through = false
+						continue
+					}
+					for i := 0; i < 2; i++ {
+						ex, isEx := strip(retOperand(r, i)).(*ssa.Extract)
+						if !isEx || ex.Tuple != ssa.Value(call) || ex.Index != i {
+							through = false
+						}
+					}
+				}
+				if through {
+					return
+				}
+			}
 			bad++
 			c.bad(rid, fmt.Sprintf("%s/read#%d:%s", fnName(fn), bad, name), c.P.instrPos(ins), "bytes of a client's stream are consumed outside the parser: what the parser then sees depends on how the bytes arrived (a short first read, a boundary inside what was taken)")
 		})
